@@ -85,7 +85,7 @@ Print Assumptions C18_eff_bound_pow2.
 
 (** For-all-parameters form of the obligation for rows of shape bound = 2^eb, scale = 2^es, secret = 2^esec. *)
 Theorem C18_pow2_row_ok : forall r prss e eb es esec b,
-  kind r = KAdditive -> bound r = BExpr b -> bvia r = ViaRandoms ->
+  kind r = KAdditive -> bound r = BExpr b -> bvia r = ViaRandoms -> meval (cap r) e = 0 ->
   meval b e = 2 ^ eb -> meval (scale r) e = 2 ^ es -> meval (secret r) e = 2 ^ esec ->
   0 <= eb -> 0 <= es -> 0 <= esec -> 0 <= e Vk -> 1 <= row_dealers r prss e ->
   esec + e Vk <= eb + es ->
@@ -108,10 +108,10 @@ Proof. split; [apply is_prime_small_correct; reflexivity|]. split; [discriminate
     it meets the obligation; the same row with the bound of the np-pow site, 1 << ((l+k)//(t+1)), does not. *)
 Example C18_row_nonvacuous :
   let sgn := MkRow "sgn"%string KAdditive MBoth (BExpr (Shl (Const 1) (Var Vk))) ViaRandoms
-                   (Shl (Const 1) (Var Vl)) (Shl (Const 1) (Var Vl)) [] in
+                   (Shl (Const 1) (Var Vl)) (Shl (Const 1) (Var Vl)) (Const 0) [] in
   let bad := MkRow "pow"%string KAdditive MDealers
                    (BExpr (Shl (Const 1) (FloorDiv (Add (Var Vl) (Var Vk)) (Add (Var Vt) (Const 1))))) ViaDirect
-                   (Const 1) (Shl (Const 1) (Var Vl)) [] in
+                   (Const 1) (Shl (Const 1) (Var Vl)) (Const 0) [] in
   let e := mk_env 32 32 30 0 2 5 2 2 in
   row_ok_at sgn true e = true /\ row_ok_at sgn false e = true /\ row_ok_at bad false e = false /\
   mask_range bad false e = 2 ^ 20.
